@@ -32,23 +32,27 @@ def _frames(family, which):
     return ds.hourly_frame(start="2021-01-01", days=365, tz=ZONE, wseed=seed, seed=seed, solar=family == "hourly_solar")
 
 
-def do_fit(family, which):
+def do_fit(family, which, reuse=None):
+    """fit a NEW model object (or `reuse`, an object that has been fitted before) on meter `which`"""
     import opendsm.eemeter as em
     from . import datasets as ds, fingerprint as F
 
     fr = _frames(family, which)
     if family in ("daily", "daily_spiky"):
-        m = em.DailyModel().fit(em.DailyBaselineData(fr, is_electricity_data=True))
+        m = (reuse if reuse is not None else em.DailyModel()).fit(em.DailyBaselineData(fr, is_electricity_data=True))
         rep = em.DailyReportingData(ds.daily_frame(start="2022-01-01", days=120, tz=ZONE, wseed=3, seed=3), is_electricity_data=True)
     elif family == "daily_legacy":
         m = em.DailyModel(model="legacy").fit(em.DailyBaselineData(fr, is_electricity_data=True))
         rep = em.DailyReportingData(ds.daily_frame(start="2022-01-01", days=120, tz=ZONE, wseed=3, seed=3), is_electricity_data=True)
     elif family == "billing":
-        m = em.BillingModel().fit(em.BillingBaselineData.from_series(ds.billing_reads(fr["observed"]), fr["temperature"], is_electricity_data=True))
+        m = (reuse if reuse is not None else em.BillingModel()).fit(em.BillingBaselineData.from_series(ds.billing_reads(fr["observed"]), fr["temperature"], is_electricity_data=True))
         rep = em.BillingReportingData.from_series(None, ds.daily_frame(start="2022-01-01", days=120, tz=ZONE, wseed=3, seed=3)["temperature"],
                                                   is_electricity_data=True)
-    elif family in ("hourly", "hourly_solar", "hourly_seed0", "hourly_late"):
-        m = em.HourlyModel(settings={"seed": 0 if family == "hourly_seed0" else 7})
+    elif family in ("hourly", "hourly_solar", "hourly_seed0", "hourly_late", "hourly_adaptive"):
+        hs_ = {"seed": 0 if family == "hourly_seed0" else 7}
+        if family == "hourly_adaptive":
+            hs_["elasticnet"] = {"adaptive_weights": True, "adaptive_weight_max_iter": 5, "adaptive_weight_tol": 1e-4}
+        m = reuse if reuse is not None else em.HourlyModel(settings=hs_)
         if family == "hourly_late":
             # the model is BUILT first, other hourly models/settings objects with other seeds are built in between, then it is fitted
             em.HourlyModel(settings={"seed": 99})
@@ -77,6 +81,11 @@ def run_op(op):
     parts = op.split(":")
     if parts[0] == "fit":
         res, _, _ = do_fit(parts[1], parts[2])
+        return res
+    if parts[0] == "refit":  # one object: fit meter A, use it, then fit the named meter -> must equal a fresh object's fit of that meter
+        _, m, rep = do_fit(parts[1], "A" if parts[2] != "A" else "B")
+        m.predict(rep)
+        res, _, _ = do_fit(parts[1], parts[2], reuse=m)
         return res
     if parts[0] == "use":  # fit, predict twice, round trip, predict with the loaded model
         res, m, rep = do_fit(parts[1], parts[2])
